@@ -12,7 +12,7 @@ NOTE = ("Trusted: Lean 4.33.0 kernel; axioms propext / Classical.choice / Quot.s
         "no sorry/admit/native_decide/bv_decide/user axioms). The Lean model of the macro (gen) and of the rustc/core semantics of the emitted "
         "code (eval) is hand-written and tied to /repo's working tree by the correspondence check (mode B: real derives compiled by cargo from "
         "/repo, run on the same definitions and inputs as the compiled Lean driver; mode A where stated: the macro's own helper functions run "
-        "in-process from /repo's source files). The model starts from the attribute items as written (which item in which #[strum(..)] list, in order) and collects them itself (StrumModel/Collect.lean). The program quantifier is sampled on the implementation side; syn's parsing of a single attribute item, heck "
+        "in-process from /repo's source files). The model starts from the attribute items as written (which item in which #[strum(..)] list, in order) and collects them itself (StrumModel/Collect.lean; the whole pass enum-as-written -> enum the theorems quantify over is collectAll = RawSource.declared, StrumProofs/Source.lean; the strum_discriminants lists and the generated enum's header: StrumModel/DiscHeader.lean; C20's counting rules = the loops: StrumProofs/Agree.lean). On the implementation side every enum item is compiled inside an inner module with the harness functions in its parent (visibility of everything generated), with rotating lifetime-parameter names and a field type whose inherent functions shadow trait methods. The program quantifier is sampled on the implementation side; syn's parsing of a single attribute item, heck "
         "(modelled), name resolution / type checking and format!'s rendering of non-string payloads are modelled or delegated, not verified. ")
 
 CLAIMED = {
